@@ -412,6 +412,26 @@ example : (Heap.empty.run demo).2 =
     [.ok (.slice ⟨0, 0, 3, 3⟩), .ok (.slice ⟨0, 0, 1, 3⟩), .ok (.slice ⟨0, 0, 2, 3⟩), .ok (.int 9),
      .err "index out of range", .ok (.int 7), .err "index must be a number"] := by decide
 
+/-! ### len -/
+
+/-- `len` of a string is the number of its elements in the model's string (bytes in the interpreter: the cont stream checks multi-byte texts against Go) -/
+theorem len_of_string (h : Heap) (cs : List Char) : (h.step (.len (.lit (.str cs)))).2 = .ok (.int cs.length) := by
+  simp [Heap.step, Heap.arg]
+
+theorem len_of_slice (h : Heap) (s : Slice) : (h.step (.len (.lit (.slice s)))).2 = .ok (.int s.len) := by
+  simp [Heap.step, Heap.arg]
+
+/-- `len` of anything that is not a slice, a string or a map is an error - never a value, and the heap is left alone -/
+theorem len_misuse_is_error (h : Heap) (v : V) (hs : ∀ s, v ≠ .slice s) (ht : ∀ cs, v ≠ .str cs) (hm : ∀ id, v ≠ .map id) :
+    (h.step (.len (.lit v))) = (h, .err ("type " ++ kindName v ++ " does not support len operation")) := by
+  cases v <;> simp_all [Heap.step, Heap.arg]
+
+/-- `len` never changes the heap -/
+theorem len_is_a_read (h : Heap) (a : Arg) : (h.step (.len a)).1 = h := by
+  simp only [Heap.step]
+  split <;> rfl
+
+
 /-! ### A map is Go's map for every history of stores and deletions (refinement, with the invariant "every key once")
 
 The model keeps a map as a list of entries; `assocErase` removes the first entry under a key. That this IS a deletion rests on an invariant - every key
